@@ -9,6 +9,8 @@ func Lookup(id string) sim.Property {
 		return C15{}
 	case "C07":
 		return C07{}
+	case "C06":
+		return C06{}
 	}
 
 	return nil
